@@ -7,7 +7,7 @@ import (
 )
 
 // Harness runtime: functions named v[A-Z]* declared in zz_verif_vrt.go are intercepted here.
-var vrtTable map[string]intrinsicFn
+var vrtTable = map[string]intrinsicFn{}
 
 func (ex *Exec) ndSym(kind string, ts ...*Term) {
 	ex.nd = append(ex.nd, ndEntry{Kind: kind, Terms: ts})
@@ -22,8 +22,7 @@ func constInt(v Value, what string) int {
 }
 
 func init() {
-	V := map[string]intrinsicFn{}
-	vrtTable = V
+	V := vrtTable
 	V["vLen"] = func(ex *Exec, fn *ssa.Function, args []Value) Value {
 		max := constInt(args[0], "vLen bound")
 		k := ex.choose(max + 1)
@@ -237,6 +236,7 @@ func init() {
 		ex.clock = Bin("+", ex.now(), args[0].(*Term), true)
 		return nil
 	}
+	V["vNative"] = func(ex *Exec, fn *ssa.Function, args []Value) Value { return tFalse }
 	V["vNow"] = func(ex *Exec, fn *ssa.Function, args []Value) Value {
 		return ex.now()
 	}
